@@ -67,6 +67,7 @@ func cmdFunc(args []string) {
 	to := fs.Int("t", 10, "timeout")
 	only := fs.String("only", "", "obligation regexp")
 	verbose := fs.Bool("v", false, "")
+	stats := fs.Bool("stats", false, "")
 	fs.Parse(args)
 	P, err := loadProgram(*repo)
 	if err != nil {
@@ -96,7 +97,7 @@ func cmdFunc(args []string) {
 				continue
 			}
 			for _, or := range r.Results {
-				if or.Status == "skipped" {
+				if or == nil || or.Status == "skipped" {
 					continue
 				}
 				if *verbose || (or.Status != "discharged" && or.Status != "cover-ok" && or.Status != "cover-notrefuted") {
@@ -105,11 +106,37 @@ func cmdFunc(args []string) {
 			}
 			n := 0
 			for _, or := range r.Results {
+				if or == nil {
+					fmt.Println("   (nil result)")
+					continue
+				}
 				if or.Status == "discharged" || or.Status == "cover-ok" || or.Status == "cover-notrefuted" {
 					n++
 				}
 			}
 			fmt.Printf("   %d/%d ok; inlined=%v used=%v\n", n, len(r.Results), r.Inlined, r.Used)
+			if *stats {
+				by := map[string]int{}
+				var tot int64
+				type it struct {
+					ms   int64
+					name string
+				}
+				var its []it
+				for _, or := range r.Results {
+					if or == nil {
+						continue
+					}
+					by[or.Solve.Backend]++
+					tot += or.Solve.Millis
+					its = append(its, it{or.Solve.Millis, or.Obl.Name + " [" + or.Solve.Backend + "] " + or.Obl.Kind})
+				}
+				sort.Slice(its, func(i, j int) bool { return its[i].ms > its[j].ms })
+				fmt.Println("   backends:", by, "total solver ms:", tot)
+				for i := 0; i < 15 && i < len(its); i++ {
+					fmt.Println("   ", its[i].ms, its[i].name)
+				}
+			}
 			if *verbose {
 				for _, n := range r.Notes {
 					fmt.Println("   note:", n)
